@@ -52,6 +52,91 @@ CHECKS['C08'] = dict(cat='other', ref='DESIGN.md §7 C08, notes/C08.md',
    technique='enumeration of the regenerated docs table x layout grammar through linter.Lint, with a Coq-proved layout model (correspondence of texts, rows and line tables) and vm_compute obligations over Gen/GenDocs.v',
    note=TB + ' The oracle is the documentation\'s own Avoid/Prefer labelling; 31 pages need fixtures under corpus/C08. Defects repaired in /repo: ba0fc92, 5309b36 (docs), dd4570e.')
 
+CHECKS['C01'] = dict(cat='proof', ref='DESIGN.md §7 C01, notes/C01.md',
+  text='Kernel-checked: every complete execution, under any scheduler, of any per-file worker program that keeps its shared accesses inside one critical section ends in the '
+       'sequential fold of the merge over a permutation of the per-file results; that fold, Lint\'s post-processing (notice de-dup, rules_skipped, aggregate phase, summary, exports) '
+       'and InputFromPaths/NewInput are invariant under permutations/duplicates of the path list (multiset equality of violations and notices, equal summary); the shared base cache only '
+       'ever answers with the document\'s own value. The goroutine/lock shapes of lintWithRegoRules, InputFromPaths and internal/cache are re-extracted from the tree with go/ast on every run and '
+       'the side condition is re-proved by computation. Correspondence: real Linter.Lint on generated workspaces under all argument permutations (<=4 files), GOMAXPROCS 1/2/16, repetition and '
+       'concurrent calls (-race in thorough) must give identical canonical reports equal to the Coq fold of per-file oracle tables.',
+  technique='Coq proof over a worker-LTS model + regenerated go/ast shape obligation + differential correspondence (vm_compute) with the Go implementation',
+  note=TB + ' Rule bodies/OPA evaluation are oracles; H_aggperm (aggregate rules read input.aggregate as a set) is tested by shuffling, not proved; the Go scheduler is modelled as any interleaving of lock/unlock/load/store steps.')
+
+CHECKS['C02'] = dict(cat='proof', ref='DESIGN.md §7 C02, notes/C02.md',
+  text='Kernel-checked: FilterIgnoredPaths (model of filepath.WalkDir + skip directories + suffix + filterPaths) discovers exactly the .rego files reachable from some argument without passing a skipped '
+       'directory and excluded by no non-empty pattern; a missing argument or unparseable file fails the run; files_scanned = number of distinct cleaned discovered files; the summary equals what the '
+       'violation/notice lists contain; per-file violations of a file in any multi-file run equal those of the file alone (under H_ops/H_loc). Skip names, suffix and guards are re-extracted from the tree on '
+       'every run. Correspondence: real FilterIgnoredPaths/Lint on generated directory trees (exact discovered list), an independent Go rendering of the specification with delta-debugged failing trees, '
+       'batch-vs-single runs over all partitions of <=4 files.',
+  technique='Coq proof over a file-tree model + regenerated constants obligation + differential correspondence (vm_compute) with the Go implementation',
+  note=TB + ' File system = tree of named nodes (no symlinks/permissions); glob matching is an oracle tabulated with the real matcher; H_ops/H_loc are tested by the batch-vs-single comparison, not proved.')
+
+CHECKS['C03'] = dict(cat='other', ref='DESIGN.md §7 C03, notes/C03.md',
+  text='Partial: kernel-checked (i) error propagation of Lint (all oracles ok => report, for every completion order and select choice; one failing file => no report; ok iff nothing fails) and (ii) '
+       'conflict-freeness of 11 multi-body framework functions (premises explicit, each shown necessary by a witness); tied by OPA evaluation of those functions on the real bundle and by error-propagation '
+       'scenarios with an oracle table taken from roast+OPA directly. The remainder - no rule body/OPA/roast fails on a parseable module - is exercised by linting, all rules enabled, the bundle, all 3714 OPA '
+       'conformance modules, stress shapes, grammar-generated modules and mutations in crash-isolating workers (testing, not proof).',
+  technique='Coq proof over models of linter error propagation and framework functions + differential correspondence + corpus fuzzing of linter.Lint with bisection/minimisation',
+  note=TB + ' Open finding: number literal beyond float64 aborts the run (roast dependency). Repaired in /repo: eaab71a, 0b544c6, 83a5518.')
+
+CHECKS['C04'] = dict(cat='proof', ref='DESIGN.md §7 C04, notes/C04.md',
+  text='Kernel-checked for ALL params/configs: ignored_rule/level_for_rule equal the README first-match chain; the Go merge gives rule > category > global > provided ("error" for custom rules); same chain for '
+       'bundled and custom rules; the enabled list is exactly the rules that can report; table obligations on bundle rules vs provided config re-proved each run. Exhaustive (25,856 / 38,784 cases) comparison through '
+       'the real GetConfig merge and real Rego functions + Lint/DetermineEnabledRules runs.',
+  technique='Coq proof over a Gallina model of config.rego/main.rego/bundle.go/linter.go + exhaustive differential correspondence',
+  note=TB + ' Three defects repaired in /repo (ea37eca, 7c60550, 548f045).')
+
+CHECKS['C07'] = dict(cat='other', ref='DESIGN.md §7 C07, notes/C07.md',
+  text='Partial: kernel-checked for the helper layer (to_location_object, _with_text, location, ranged_*, infix_expr_location, line table, getRangeForViolation): well-formed ordered locations yield positions inside '
+       'the file with the exact line text and end >= start; k blank lines shift rows by k and nothing else for ALL k; CRLF and LF twins have one line table; LSP ranges are ordered. Tied by OPA evaluation of every helper on '
+       'the real bundle (incl. out-of-range rows, empty tables, non-ASCII), roast line table, overlay test. That every rule reports through these helpers with ordered arguments is exercised end to end: bounds/text of every '
+       'violation and the k-shift relation for k in {1,3,10,100} over the corpora of C03 (testing).',
+  technique='Coq proof over a Gallina model of util.rego/result.rego/lsp range conversion + differential correspondence + metamorphic corpus testing of linter.Lint',
+  note=TB + ' Exempt from the shift relation: file-length, opa-fmt. Open finding: impossible-not single-file text is synthesised. Repaired in /repo: 7b4f9ea.')
+
+CHECKS['C11'] = dict(cat='proof', ref='DESIGN.md §7 C11, notes/C11.md',
+  text='Kernel-checked over a byte-level model of the three location-based fixes (all contents, all locations): each fix returns the old content with exactly the documented splice or nothing iff its guard fails; '
+       'character columns vs byte indices; the raw string written denotes the same value; the column the use-assignment-operator rule reports is the operator and is code whenever the head value is; fixes of one pass are '
+       'row-local and commute across rows; pinned _eq_col / byte-column behaviour refuted by witness. Tie: every unit call, every language-server code action and every violation location of generated modules recomputed by '
+       'the model inside Coq; predicate on Fixer.Fix results (parses, AST equal modulo documented effects, lines explained by documented splices, opa-fmt = formatter fixpoint).',
+  technique='Coq proof over a Gallina model + differential correspondence (vm_compute) + AST/byte-level predicate on the implementation',
+  note=TB + ' OPA parser/formatter and the Rego rule bodies are oracles (only the reported column is modelled); defects repaired in /repo: 68685e7, 115e11c, 98459b0, 2ffbfcb.')
+
+CHECKS['C12'] = dict(cat='proof', ref='DESIGN.md §7 C12, notes/C12.md',
+  text='Kernel-checked over a model of applyLinterFixes with the linter/formatter/rename as oracles: termination within mu+1 iterations under an explicit progress measure, post-condition (every remaining violation is declined by its fix), '
+       'idempotence; the progress hypothesis is discharged for every combination of the three text rules and refuted for the pinned code by an inductive non-termination proof. Tie: real Fixer.Fix on generated file sets x rule subsets x '
+       'conflict modes under an iteration cap/deadline, every iteration recomputed by the model; re-lint and second fix; real binary on the corpus in the thorough tier.',
+  technique='Coq proof over a Gallina model + per-iteration differential correspondence + termination/idempotence predicate on the implementation',
+  note=TB + ' Progress of opa-fmt and directory-package-mismatch is a hypothesis validated by the harness; two open known findings (violations the fixes rightly decline remain reported); repaired: ec2ae94.')
+
+CHECKS['C13'] = dict(cat='proof', ref='DESIGN.md §7 C13, Appendix A.3, notes/C13.md',
+  text='Kernel-checked: the in-memory provider refines a map and keeps the invariant the commit needs; for files tagged with their original path, after ANY sequence of fix results and for ANY walk order of the deleted/modified sets, a successful '
+       '`regal fix` leaves every original file on disk exactly once and unloaded files untouched; conflicts (policy error) stop before any disk operation; policy rename always finds a fresh name in the same directory (incl. Atoi overflow); dry-run is a '
+       'no-op; the commit cannot stop between deletes and writes; the closest root is an ancestor and order independent. Models compared with renameCandidate/handleRename/InMemoryFileProvider/FindClosestMatchingRoot/DirCleanUpPaths (overlay tests) '
+       'and with the real binary on small workspaces; conservation predicate computed on tree snapshots.',
+  technique='Coq proof over Gallina models + differential correspondence (vm_compute) with Go overlay tests and the regal binary',
+  note=TB + ' File system model: regular files and directories only (no permissions/symlinks); linter and root discovery are oracles. Repaired in /repo: fc4cdc9, 7b0691a, 8979e4d.')
+
+CHECKS['C14'] = dict(cat='proof', ref='DESIGN.md §7 C14, notes/C14.md',
+  text='Kernel-checked: without --force/--dry-run the command reaches its commit only if FindGitRepo found one repository containing every argument and no modified or deleted path is named by a go-git status key (component-wise), otherwise the tree is '
+       'identical; pinned gate refuted three ways. Model compared with FindGitRepo/GetChangedFiles (overlay) and the real binary over git states x fix kinds x argument spellings; restorability judged independently with the git CLI.',
+  technique='Coq proof over a Gallina model + differential correspondence with the regal binary in real git repositories',
+  note=TB + ' go-git status is an oracle (its key set is taken as given). Open known finding: git-ignored files are rewritten. Repaired in /repo: 97032bc, d50b17a.')
+
+CHECKS['C18'] = dict(cat='proof', ref='DESIGN.md §7 C18, notes/C18.md',
+  text='Kernel-checked, axiom-free. (a) config.FindConfig modelled on path strings returns, for directory chains of ANY depth and any spelling of the start path, what the closest directory holding .regal/ or .regal.yaml yields (conflict iff both closest '
+       'holders coincide), then user-level file, then defaults; the strict files-only reading is refuted (open finding: config-less .regal/ directories). (b) LoadConfigWithDefaultsFromBundle keeps every rule/option/ignore/level/top-level key the user did not write '
+       'and applies what they wrote, instantiated with the regenerated provided config. (c) MarshalYAML/UnmarshalYAML gives back rules, defaults, ignore, project, features for every loaded config; capabilities refuted. Models compared with FindConfig and the real '
+       '`regal lint` on exhaustive placements of both kinds on chains of depth <=4 (plus trees rooted at / in a chroot jail, spelled paths), and with yaml decoding, the real mergo merge and yaml round trips on generated user configs.',
+  technique='Coq proof over Gallina models + regenerated provided-config table + differential correspondence (vm_compute) with the Go implementation and the built binary',
+  note=TB + ' Repaired in /repo: 946e045, eec8980, c2a44f9, f78e575; one open finding (config-less .regal/ directory counts as a configuration).')
+
+CHECKS['C19'] = dict(cat='proof', ref='DESIGN.md §7 C19, notes/C19.md',
+  text='Kernel-checked with rule bodies as arbitrary functions: a rule with a notice reports nothing and is listed; rules_skipped = distinct notices with severity != none, identical for one file and n copies and under any completion order; builtins = '
+       '(base - minus) + plus; every notices rule fires exactly when the documented need is unmet (regenerated table). Every embedded OPA/EOPA version, a capabilities file and all plus/minus subsets through the real predicates and the real Lint.',
+  technique='Coq proof over a Gallina model of capabilities.rego gates, main.rego notice gate, linter.go dedup/counter, plus/minus + differential correspondence',
+  note=TB + ' Two defects repaired in /repo (f7a7fe3 nil decl panic, bda07f4 plus declarations dropped).')
+
 NOT_YET = {}
 
 def main():
